@@ -520,3 +520,13 @@ Section Wraps.
     apply app_inv_head in D2. apply app_inv_head in D2. assumption.
   Qed.
 End Wraps.
+
+(* ------------------------------------------------------------------ *)
+(* helpers for the Examples of Properties/C14.v                         *)
+(* two results are values, and different / equal ones *)
+Definition differ (a b : res (list N)) : bool :=
+  match a, b with Ok x, Ok y => negb (list_eqb x y) | _, _ => false end.
+Definition same (a b : res (list N)) : bool :=
+  match a, b with Ok x, Ok y => list_eqb x y | _, _ => false end.
+(* "B0096P0TE00N0000" *)
+Definition ex_hdr : str := [66; 48; 48; 57; 54; 80; 48; 84; 69; 48; 48; 78; 48; 48; 48; 48].
